@@ -129,7 +129,12 @@ Fixpoint substitute (s : schema) (v : value) {struct s} : result schema :=
       | SNone => Ok SNone
       | SBool _ => match v with VBool b => Ok (SBool (Some b)) | _ => Raise OtherExn end
       | SInt _ mn mx => match as_intv v with Some i => Ok (SInt (Some i) mn mx) | None => Raise OtherExn end
-      | SFloat _ mn mx pr => match v with VFloat x => Ok (SFloat (Some x) mn mx pr) | _ => Raise OtherExn end
+      | SFloat val mn mx pr =>
+          match v with
+          | VFloat x =>
+              (* a declared value is kept (it is compared with a tolerance) *)
+              Ok (SFloat (match val with Some e => Some e | None => Some x end) mn mx pr)
+          | _ => Raise OtherExn end
       | SStr _ len mnl mxl al sub pat =>
           match v with VStr x => Ok (SStr (Some x) len mnl mxl al sub pat) | _ => Raise OtherExn end
       | SBytes _ => match v with VBytes b => Ok (SBytes (Some b)) | _ => Raise OtherExn end
